@@ -25,8 +25,8 @@ REQUIRED_THEOREMS = ['C03_energy_grad', 'C03_energy_grad_prbm', 'C03_logZ_grad',
                      'C03_born_density_normalised', 'C03_nll_is_born_density',
                      # layout, call forms, default branch of pi_grad
                      'C03_layout', 'C03_layout_prbm', 'C03_exact_gradient_positive_flat', 'C03_exact_gradient_complex_flat',
-                     'C03_exact_gradient_density_flat', 'C03_single_sample', 'C03_single_sample_density', 'C03_allZ_sample',
-                     'C03_allZ_sample_density', 'C03_pi_grad_branches_agree', 'C03_pi_grad_branches_differ', 'C03_default_dictionary_ok']
+                     'C03_exact_gradient_density_flat', 'C03_single_sample', 'C03_single_sample_density', 'C03_bases_none',
+                     'C03_bases_none_density', 'C03_pi_grad_branches_agree', 'C03_pi_grad_branches_differ', 'C03_default_dictionary_ok']
 RULE = ("case = (state kind, n, h[, a], parameters = scale*N(0,1) with all biases non-zero (the phase network's auxiliary bias of the mixed state is "
         "non-zero in about half of the cases, exactly zero in the others), scale in {0.3,0.7,1.2} plus saturated rows at scale 3 and 10, dataset of random "
         "basis states with repeats, per-sample basis strings over {X,Y,Z} incl. all-Z rows and mixed rows in one batch); regime all-strings: one dataset "
@@ -293,7 +293,7 @@ def one_case(ctx, case):
         except Exception as e:  # noqa: BLE001
             okn, okp, det = False, False, {"exception": type(e).__name__, "message": str(e)[:200]}
         ctx.oracle("gradient(samples, bases=None) == gradient with all-Z bases: [energy gradient, zero tensor]", bool(okn), case,
-                   detail=det, sig=f"{kind}/bases-none", theorem="C03_allZ_sample" + ("_density" if kind == "dm" else ""))
+                   detail=det, sig=f"{kind}/bases-none", theorem="C03_bases_none" + ("_density" if kind == "dm" else ""))
         ctx.oracle("positive_phase_gradients(samples) == gradient(samples) / N", bool(okp), case, detail=det,
                    sig=f"{kind}/bases-none-posphase", theorem=TH_SUM[kind])
     ctx.oracle("positive_phase == gradient / N", bool(all(np.allclose(x, y / len(data), rtol=1e-12, atol=1e-12 * scale) for x, y in zip(pp, g))), case,
@@ -344,7 +344,7 @@ def one_case(ctx, case):
         for i in (0, 1):
             if gn_impl is not None and len(gn_impl) == 2:
                 cmp_vec(ctx, f"gradient(bases=None)[{i}]", gn_impl[i], unbits(mz["gradient"][i]), case, f"{kind}/bases-none-model",
-                        "C03_allZ_sample" + ("_density" if kind == "dm" else ""), scale)
+                        "C03_bases_none" + ("_density" if kind == "dm" else ""), scale)
         if kind == "dm":
             # auxiliary internals on one pair
             v, vp = space[ctx.rng.randrange(len(space))], space[ctx.rng.randrange(len(space))]
